@@ -107,6 +107,11 @@ impl<Octs: Octets> NotificationMessage<Octs> {
         // parse header
         let pos = parser.pos();
         let hdr = Header::parse(parser)?;
+        if hdr.length() < 21 {
+            return Err(ParseError::form_error(
+                "NOTIFICATION shorter than header, code and subcode"
+            ))
+        }
 
         let _code = parser.parse_u8()?;
         let _subcode = parser.parse_u8()?;
